@@ -1522,7 +1522,7 @@ class Server:
                 break
         else:
             connection.response("503", ["this server started in ipv6 mode"])
-            return False
+            return True
 
         nums = tuple(map(int, host.split("."))) + (port >> 8, port & 0xFF)
         info = [info_template.format(address=f"({','.join(map(str, nums))})")]
